@@ -8,7 +8,7 @@ namespace C01Drv
 
 def modNames : List String :=
   ["accw", "acc", "revw", "rev", "drop", "garb", "bad", "sess", "noS", "noC", "rs", "rm", "as",
-   "cm", "cp", "pm", "pp", "pt", "h"]
+   "cm", "cp", "pm", "pp", "pt", "px", "ox", "h"]
 
 def parseArgs (s : String) : Option (List Nat) :=
   if s = "" then some [] else
